@@ -908,6 +908,9 @@ def shapes_for(kk, ww):
         "ordinary": clean[3:2 * kk + 9 + (ww or 0)],
     }
     sh["k-1+N"] = clean[4:4 + kk - 1] + b"N"
+    # degenerate records beyond a round size threshold
+    sh["all-N-100000"] = b"N" * 100000
+    sh["N-but-short-stretch-120000"] = b"N" * 60000 + clean[:kk - 1] + b"N" * 60000
     if ww:
         sh["w-1"] = clean[7:7 + ww - 1]
         sh["w"] = clean[2:2 + ww]
@@ -1092,8 +1095,10 @@ def c16(tier):
     for variant in C16_VARIANTS:
         name, kk, ww = variant
         sh = shapes_for(kk, ww)
-        names = sorted(sh)
-        lists = [()] + [(a,) for a in names] + [(a, b) for a in names for b in names]
+        # the two 100 000-base shapes only as single records and after an ordinary one (the Python model is slow on them)
+        long_names = [n for n in sorted(sh) if n.endswith("000")]
+        names = [n for n in sorted(sh) if n not in long_names]
+        lists = [()] + [(a,) for a in names] + [(a, b) for a in names for b in names] + [(a,) for a in long_names] + [("ordinary", a) for a in long_names]
         if tier == "thorough":
             lists += [(a, b, c) for a in names for b in names for c in names]
         for l in lists:
@@ -1112,7 +1117,7 @@ def c16(tier):
     counts = [1023, 1024, 1025, 4095, 4096, 4097, 8192, 99, 100, 101, 999, 1000, 1001, 10000] + ([2048, 9999, 10001, 16384, 65535, 65536, 65537, 100000] if tier == "thorough" else [])
     for variant in C16_VARIANTS:
         names = sorted(shapes_for(variant[1], variant[2]))
-        degenerate = [n for n in names if n != "ordinary"][:6]
+        degenerate = [n for n in names if n != "ordinary" and not n.endswith("000")][:6]
         for ci, n in enumerate(counts):
             rot = tuple(degenerate[(ci + j) % len(degenerate)] for j in range(3))
             for t in ((1, 4) if tier == "thorough" else (4,)):
